@@ -207,12 +207,33 @@ def call_constructor(op):
     raise RuntimeError('unknown model ' + m)
 
 
+def call_again_after_mutation(ctor, key):
+    """Every third case (decided by a hash of the arguments): call the constructor, modify the returned MPO in place through
+    its public interface (zero_qnumbers(), scaling of the tensors), and call it AGAIN with the same arguments; the second
+    result is the one that is compared.  On code that builds a fresh object per call this changes nothing; a constructor
+    that hands out shared / cached state (seeded change C06-g) returns the modified object."""
+    import zlib
+    first = ctor()
+    if zlib.crc32(json.dumps(key, sort_keys=True, default=str).encode()) % 3 != 0:
+        return first
+    try:
+        first.zero_qnumbers()
+        for A in first.A:
+            A *= 2
+    except Exception:
+        pass
+    second = ctor()
+    if second is first:
+        second._verif_note = 'second call returned the very same object as the first'
+    return second
+
+
 def impl_build(op, timeout=120.0):
     """run the constructor under capture and assemble the dict the driver op `ham.build` returns"""
     with capturing() as cap:
         mpo, err = None, None
         try:
-            mpo = with_alarm(timeout, lambda: call_constructor(op))
+            mpo = with_alarm(timeout, lambda: call_again_after_mutation(lambda: call_constructor(op), {k: v for k, v in op.items() if not k.endswith('_f')}))
         except CaseTimeout:
             err = 'fuel'
         except (AssertionError, ValueError, KeyError, TypeError, IndexError, RuntimeError) as ex:
